@@ -299,7 +299,10 @@ class CliRun:
         return self.rc == 101 or self.rc < 0
 
     def brief(self):
-        return {"argv": self.argv, "exit": self.rc,
+        # an argument may spell bytes that are not UTF-8 with lone surrogates: not encodable as JSON text
+        argv = [a if not isinstance(a, str) or a.isprintable() and a.encode("utf-8", "ignore").decode() == a
+                else repr(os.fsencode(a))[2:-1] for a in self.argv]
+        return {"argv": argv, "exit": self.rc,
                 "stdout": self.out.decode("utf-8", "replace")[-600:],
                 "stderr": self.err.decode("utf-8", "replace")[-600:]}
 
